@@ -5,7 +5,7 @@ void h_cJSON_ParseWithLengthOpts(void)
     const char *v; size_t n; const char **e; cJSON_bool rnt;
     cJSON *r;
     VF_INIT();
-    g_disp = D_NONE;
+    g_disp = D_NONE; g_del_calls = 0;
     r = cJSON_ParseWithLengthOpts(v, n, e, rnt);
     VF_COVER(r != NULL && rnt && g_pv_end + 3 < n);
     VF_COVER(r != NULL && !rnt);
